@@ -252,9 +252,11 @@ NG = H.part("VF_NG", 3)
 def global_section(k0: int, k1: int, k2: int, t0: int, t1: int, t2: int, v0: str, v1: str, v2: str, tb: int) -> bool:
     """
     pre: all(0 <= k <= 2 for k in [k0, k1, k2])
-    pre: 0 <= t0 <= t1 <= t2 and tb > 0
+    pre: t0 >= 0 and t1 >= 0 and t2 >= 0 and tb > 0
     post: _
     """
+    # any line order: ticks need not be sorted ("forall line orders"); an unsorted section may be
+    # rejected with ValueError, an accepted one keeps every event at its own tick in file order
     kinds = ["LYR", "SEC", "TXT"]
     ks, ts, vs = [k0, k1, k2][:NG], [t0, t1, t2][:NG], [v0, v1, v2][:NG]
     lines = []
@@ -263,8 +265,15 @@ def global_section(k0: int, k1: int, k2: int, t0: int, t1: int, t2: int, v0: str
         if i == 0:
             lines.append(K.GARBAGE(0))
     be = tempo_map(tb)
+    is_sorted = True
+    for i in range(1, NG):
+        if ts[i - 1] > ts[i]:
+            is_sorted = False
     with env(clock()):
-        g = G.GlobalEventsTrack.from_chart_lines(iter(lines), be)
+        try:
+            g = G.GlobalEventsTrack.from_chart_lines(iter(lines), be)
+        except ValueError:
+            return done(not is_sorted)
     got = [g.lyric_events, g.section_events, g.text_events]
     classes = [G.LyricEvent, G.SectionEvent, G.TextEvent]
     ok = len(got[0]) + len(got[1]) + len(got[2]) == NG
